@@ -312,30 +312,75 @@ func c11Cancel(c *Ctx, a *clientAnchors) {
 	var look *ssa.Lookup
 	var del, closeCh *ssa.Call
 	nClose := 0
-	allInstrs(fn, func(in ssa.Instruction) {
-		switch x := in.(type) {
-		case *ssa.Call:
-			if isBuiltinCall(x.Common(), "close") {
-				s := sx.Of(x.Call.Args[0]).String()
-				if strings.HasPrefix(s, "makechan") {
-					closeDone = x
-					nClose++
-				} else {
-					closeCh = x
+	scan := func(g *ssa.Function) {
+		allInstrs(g, func(in ssa.Instruction) {
+			switch x := in.(type) {
+			case *ssa.Call:
+				if isBuiltinCall(x.Common(), "close") {
+					s := sx.Of(x.Call.Args[0]).String()
+					if strings.HasPrefix(s, "makechan") {
+						closeDone = x
+						nClose++
+					} else {
+						closeCh = x
+					}
+				}
+				if a.isMuCall(x, "Lock") {
+					lock = x
+				}
+				if isBuiltinCall(x.Common(), "delete") && a.isClientFieldLoad(x.Call.Args[0], "pending") {
+					del = x
+				}
+			case *ssa.Lookup:
+				if x.CommaOk && a.isClientFieldLoad(x.X, "pending") {
+					look = x
 				}
 			}
-			if a.isMuCall(x, "Lock") {
-				lock = x
+		})
+	}
+	scan(fn)
+	// the removal half may sit in an unexported helper of the package called from the closure (forget(msg, done)):
+	// body is the function holding Lock/lookup/delete, entry the instruction of the closure that leads into it
+	body := fn
+	var entry ssa.Instruction
+	rew := func(s string) string { return s }
+	if lock == nil || look == nil || del == nil {
+		allInstrs(fn, func(in ssa.Instruction) {
+			cl, ok := in.(*ssa.Call)
+			if !ok || cl.Call.StaticCallee() == nil || body != fn {
+				return
 			}
-			if isBuiltinCall(x.Common(), "delete") && a.isClientFieldLoad(x.Call.Args[0], "pending") {
-				del = x
+			g := cl.Call.StaticCallee()
+			if g.Blocks == nil || funcPkg(g) != a.pkg.Pkg || token.IsExported(g.Name()) || hasNonCallRef(g) {
+				return
 			}
-		case *ssa.Lookup:
-			if x.CommaOk && a.isClientFieldLoad(x.X, "pending") {
-				look = x
+			has := false
+			allInstrs(g, func(i2 ssa.Instruction) {
+				if a.isMuCall(i2, "Lock") {
+					has = true
+				}
+			})
+			if !has {
+				return
 			}
+			body, entry = g, cl
+			sub := map[string]string{}
+			for i, p := range g.Params {
+				if i < len(cl.Call.Args) {
+					sub[sx.Of(p).String()] = sx.Of(cl.Call.Args[i]).String()
+				}
+			}
+			rew = func(s string) string {
+				for from, to := range sub {
+					s = strings.ReplaceAll(s, from, to)
+				}
+				return s
+			}
+		})
+		if body != fn {
+			scan(body)
 		}
-	})
+	}
 	if closeDone == nil || lock == nil || look == nil || del == nil {
 		r.Undecided("C11-K4", key("shape"), c.P.pos(fn.Pos()), fmt.Sprintf("need close(done), Lock, lookup, delete; found %v/%v/%v/%v", closeDone != nil, lock != nil, look != nil, del != nil))
 		return
@@ -345,13 +390,26 @@ func c11Cancel(c *Ctx, a *clientAnchors) {
 	for _, rb := range returnBlocks(fn) {
 		r.Check(closeDone.Block() == rb || closeDone.Block().Dominates(rb), "C11-K4", key("close(done) on every path"), c.P.ipos(closeDone), "close dominates every return",
 			"cancel can return without closing the call's done channel: a receive loop blocked on the call's full channel is never released (Close hangs in wg.Wait)")
-		r.Check(look.Block() == rb || look.Block().Dominates(rb), "C11-K7", key("entry looked up on every path"), c.P.ipos(look), "lookup dominates every return",
-			"cancel can return without removing the entry: the transaction id is not reusable and later datagrams for it pile up")
+		if body == fn {
+			r.Check(look.Block() == rb || look.Block().Dominates(rb), "C11-K7", key("entry looked up on every path"), c.P.ipos(look), "lookup dominates every return",
+				"cancel can return without removing the entry: the transaction id is not reusable and later datagrams for it pile up")
+		} else {
+			r.Check(entry.Block() == rb || entry.Block().Dominates(rb), "C11-K7", key("entry looked up on every path"), c.P.ipos(entry), "the call of the removal helper dominates every return",
+				"cancel can return without calling the removal helper: the transaction id is not reusable and later datagrams for it pile up")
+		}
 	}
-	r.Check(instrDominates(closeDone, lock), "C11-K4", key("close(done) before taking the lock"), c.P.ipos(lock), "close dominates Lock",
-		"cancel takes pendingMu before closing done: if the receive loop holds the lock while blocked on this call's channel, both wait forever")
+	if body != fn {
+		for _, rb := range returnBlocks(body) {
+			r.Check(look.Block() == rb || look.Block().Dominates(rb), "C11-K7", key("entry looked up on every path of the removal helper"), c.P.ipos(look), "lookup dominates every return", "the removal helper can return without looking the entry up")
+		}
+		r.Check(instrDominates(closeDone, entry), "C11-K4", key("close(done) before taking the lock"), c.P.ipos(entry), "close dominates the call of the removal helper (which takes the lock)",
+			"cancel takes pendingMu before closing done: if the receive loop holds the lock while blocked on this call's channel, both wait forever")
+	} else {
+		r.Check(instrDominates(closeDone, lock), "C11-K4", key("close(done) before taking the lock"), c.P.ipos(lock), "close dominates Lock",
+			"cancel takes pendingMu before closing done: if the receive loop holds the lock while blocked on this call's channel, both wait forever")
+	}
 	// K7: on the present edge the entry is deleted with the same key
-	kl, kd := sx.Of(look.Index).String(), sx.Of(del.Call.Args[1]).String()
+	kl, kd := rew(sx.Of(look.Index).String()), rew(sx.Of(del.Call.Args[1]).String())
 	wantKey := "field[TransactionID](" + sx.Of(a.send.Params[2]).String() + ")"
 	r.Check(kl == wantKey && kd == wantKey, "C11-K7", key("lookup and delete use the call's transaction id"), c.P.ipos(del), "symx", "lookup key "+kl+", delete key "+kd+", want "+wantKey)
 	okv := extractOf(look, 1)
@@ -365,11 +423,11 @@ func c11Cancel(c *Ctx, a *clientAnchors) {
 		if !ok || !((bo.Op == token.EQL && x.val) || (bo.Op == token.NEQ && !x.val)) {
 			return false
 		}
-		xs, ys := sx.Of(bo.X).String(), sx.Of(bo.Y).String()
+		xs, ys := rew(sx.Of(bo.X).String()), rew(sx.Of(bo.Y).String())
 		return isEntryS(xs) != isEntryS(ys)
 	}
 	hasIdent, hasOk := false, false
-	for _, x := range atomsIn(fn) {
+	for _, x := range atomsIn(body) {
 		if isIdent(x) {
 			hasIdent = true
 		}
@@ -384,7 +442,7 @@ func c11Cancel(c *Ctx, a *clientAnchors) {
 			n      sNode
 			ok, id bool
 		}
-		start := st{sNode{fn.Blocks[0], -1}, false, !hasIdent}
+		start := st{sNode{body.Blocks[0], -1}, false, !hasIdent}
 		seen := map[st]bool{start: true}
 		stack := []st{start}
 		survives := false
@@ -417,7 +475,7 @@ func c11Cancel(c *Ctx, a *clientAnchors) {
 		r.Check(!survives, "C11-K7", key("the call's own entry, when present, is always deleted"), c.P.ipos(del), "no return is reachable after learning ok (and entry == own) without passing delete", "the call's own entry can survive cancel: its transaction id stays registered")
 	}
 	if closeCh != nil {
-		li := a.lockFlow(fn)
+		li := a.lockFlow(closeCh.Parent())
 		r.Check(li.must[closeCh], "C10-K8", key("transaction channel closed under the lock"), c.P.ipos(closeCh), "must-hold", "close(p.ch) without pendingMu held")
 	}
 	// K9 identity: the entry found under the call's transaction id is removed only if it is the entry this call
@@ -432,7 +490,7 @@ func c11Cancel(c *Ctx, a *clientAnchors) {
 		if !ok || !((bo.Op == token.EQL && f.pol) || (bo.Op == token.NEQ && !f.pol)) {
 			continue
 		}
-		xs, ys := sx.Of(bo.X).String(), sx.Of(bo.Y).String()
+		xs, ys := rew(sx.Of(bo.X).String()), rew(sx.Of(bo.Y).String())
 		own := func(s string) bool {
 			return !isEntry(s) && (strings.HasPrefix(s, "makechan") || strings.HasPrefix(s, "alloc(") || strings.HasPrefix(s, "free("))
 		}
@@ -447,6 +505,40 @@ func c11Cancel(c *Ctx, a *clientAnchors) {
 // blocking operations while the lock may be held
 func c11Blocking(c *Ctx, a *clientAnchors) {
 	r := c.R
+	if a.deliverFn == nil {
+		// the delivering select may sit in a helper called from the receive loop (same resolution as C10-K1)
+		loopSel := false
+		allInstrs(a.recvLoop, func(in ssa.Instruction) {
+			if s, ok := in.(*ssa.Select); ok {
+				for _, stt := range s.States {
+					if stt.Dir == types.SendOnly {
+						loopSel = true
+					}
+				}
+			}
+		})
+		if !loopSel {
+			allInstrs(a.recvLoop, func(in ssa.Instruction) {
+				cl, ok := in.(*ssa.Call)
+				if !ok || cl.Call.StaticCallee() == nil {
+					return
+				}
+				g := cl.Call.StaticCallee()
+				if g.Blocks == nil || funcPkg(g) != a.pkg.Pkg || token.IsExported(g.Name()) || hasNonCallRef(g) {
+					return
+				}
+				allInstrs(g, func(i2 ssa.Instruction) {
+					if s2, ok := i2.(*ssa.Select); ok {
+						for _, stt := range s2.States {
+							if stt.Dir == types.SendOnly {
+								a.deliverFn, a.deliverCall = g, cl
+							}
+						}
+					}
+				})
+			})
+		}
+	}
 	for _, f := range a.pkgFuncs(c.P) {
 		li := a.lockFlow(f)
 		allInstrs(f, func(in ssa.Instruction) {
@@ -458,7 +550,7 @@ func c11Blocking(c *Ctx, a *clientAnchors) {
 			case *ssa.Select:
 				if x.Blocking {
 					blocking, what = true, "select"
-					if f == a.recvLoop {
+					if f == a.recvLoop || (a.deliverFn != nil && f == a.deliverFn) {
 						// allowed: the delivery select (judged in C10-K1 to wait on the entry's done)
 						for _, s := range x.States {
 							if s.Dir == types.SendOnly {
@@ -485,6 +577,10 @@ func c11Blocking(c *Ctx, a *clientAnchors) {
 					blocking, what = true, "time.Sleep"
 				case cc.StaticCallee() != nil && funcPkg(cc.StaticCallee()) == a.pkg.Pkg && cc.StaticCallee().Blocks != nil:
 					// calls into the package while holding the lock: only trivially non-blocking helpers
+					if a.deliverFn != nil && cc.StaticCallee() == a.deliverFn && f == a.recvLoop {
+						// the delivery helper: its select is the allowed one (judged inside the helper)
+						return
+					}
 					blocking, what = calleeMayBlock(cc.StaticCallee(), 0), "call of "+shortName(cc.StaticCallee())
 				}
 			}
